@@ -50,6 +50,8 @@ def check_writer(ctx, oid="C05.1"):
     ev = ctx.evaluator()
     pts = rules.compare_constants(ev, fi) | {0, 252, 253, 0xFFFF, 0x10000, 0xFFFFFFFF, 0x100000000,
                                              0xFFFFFFFFFFFFFFFF, 0x10000000000000000, 2 ** 72}
+    if ctx.thorough:  # every power-of-two boundary up to 2^72 and the first 70000 integers' byte boundaries
+        pts = pts | {2 ** k for k in range(0, 73)} | set(range(0, 600)) | set(range(65000, 66000))
     reps = rules.representatives(pts)
     pname = fi.params()[0]
     n = 0
@@ -75,7 +77,7 @@ def check_reader(ctx, oid="C05.2"):
     buf = P(pname, tm.BYTES)
     first = tm.idx(buf, 0)
     pts = rules.compare_constants(ev, fi) | {0, 252, 253, 254, 255}
-    reps = [v for v in rules.representatives(pts, 0, 255)]
+    reps = list(range(256)) if ctx.thorough else [v for v in rules.representatives(pts, 0, 255)]
     for v in reps:
         ev.bind = {first: v}
         s = ev.run(fi)
